@@ -149,6 +149,10 @@ def forms_for(cls_name, full=True):
         # a callback named on the command line that raises: its exception is the task's, as with the direct call
         ecbr = ("--end-callback", "end_callback", [(VW + "ecb_raise", vw.ecb_raise)])
         add("apply", [[(VW + "boom", vw.boom), (VW + "work", vw.work)]], [ecbr])
+        # functions and callbacks named by a dotted path through an object: bound methods, a classmethod
+        ecbh = ("--end-callback", "end_callback", [(VW + "handler.on_end", vw.handler.on_end), (VW + "Handler.cls_on_end", vw.Handler.cls_on_end)])
+        ccbh = ("--cancel-callback", "cancel_callback", [(VW + "handler.on_cancel", vw.handler.on_cancel)])
+        add("apply", [[(VW + "handler.work", vw.handler.work), (VW + "boom", vw.boom)]], [ecbh, ccbh])
         if full:
             add("apply", [fn], [args, kwargs, num, GROUP, ECB, CCB])
             add("map", [fn, [("[1,2,3]", [1, 2, 3]), ("[]", []), ("(4,)", (4,))]], [nc, GROUP, ECB, CCB])
@@ -176,6 +180,7 @@ def history_alphabet(cls_name):
             "cancel 0", "cancel-group g1", "lock", "pool-size 1", "flush", "gather-and-close",
             f"apply {VW}boom --args (1,)",
             f"apply {VW}boom --end-callback {VW}ecb_raise",
+            f"apply {VW}handler.work --end-callback {VW}handler.on_end --cancel-callback {VW}handler.on_cancel",
             f"apply {VW}work --group-name 7",
         ]
     return [allf[ln] for ln in lines]
